@@ -156,4 +156,12 @@ def run(tier, seed):
     livetls.run_cli_policies(res, tier)
     livetls.run_config_matrix(res, tier, "C09", seed)
     res.rule += " | plus the CLI: serve --config with default-deny-only / allow-loopback / deny-loopback / deny-other policies, request from 127.0.0.1; the same policies inside generated configurations (log levels, rate-limit sections, flags, environment overrides)"
+    # `serve --reload`: the server is a child process started with the parent's arguments minus the reload flags
+    import reloadargs
+    reloadargs.run(res, tier, seed)
+    livetls.run_cli_reload_policies(res, tier)
+    res.rule += (" | plus `serve --reload`: generated command lines (the five reload flag forms, near-misses, values and file names containing 'reload', "
+                 "values that look like options) through the real filter loop, the real Supervisor._build_command and the unmodified path down to "
+                 "subprocess.Popen, against Model/Reload.v; live: serve ROOT --reload --reload-dir D --config[=| ]dev-reload.toml with deny- and "
+                 "allow-loopback policies, request from 127.0.0.1")
     return res
